@@ -8,6 +8,7 @@ import Jamm.Proofs.SpecLemmas
 import Jamm.Proofs.TxLemmas
 import Jamm.Proofs.CursorLemmas
 import Jamm.Proofs.FileCheckLemmas
+import Jamm.Proofs.CommitCompose
 set_option linter.unusedSectionVars false
 open Std
 
@@ -67,6 +68,51 @@ theorem checked_file_tree_wf (t : Tree K α) (h : wfb none none t = true) : WF n
 /-- non-vacuity: a concrete sorted list and the laws on it -/
 example : Sorted (Spec.insert (2 : Nat) "b" [(1, "a"), (3, "c")]) ∧
     lookup 2 (Spec.insert (2 : Nat) "b" [(1, "a"), (3, "c")]) = some "b" := by
+  decide
+
+/-! ## Layer C: commit.  The model of one bucket's commit is `commitTree`: the replay of the steps that
+the real `rebalance` reports (any list of steps is covered), then `spill` (functional, no oracle).  The
+correspondence run checks on every commit that this model predicts the exact shape of the tree the
+real code wrote; the theorems say that such a commit cannot change what the bucket contains and keeps
+the invariant under which the reads above are correct. -/
+
+/-- commit does not change the contents of a bucket: for every list of rebalance steps, every page
+size, every split threshold -/
+theorem commit_preserves_contents (p : Params) (pagesize hdr leafHdr branchHdr bmSize : Nat)
+    (steps : List RbStep) (t : Tree Bytes Ent) (h : TreeInv t) :
+    (commitTree p pagesize hdr leafHdr branchHdr bmSize steps t).flatten = t.flatten := by
+  obtain ⟨d, hu⟩ := h.uniform
+  exact commitTree_flatten p pagesize hdr leafHdr branchHdr bmSize steps t d hu
+
+/-- the tree invariant (separators bound their subtrees, no routing gap, uniform depth) holds after
+every edit of a transaction and after its commit, hence — by induction — at every point of every
+history of transactions -/
+theorem invariant_through_edits (t : Tree K α) (h : TreeInv t) (ops : List (TxOp K α)) :
+    TreeInv (ops.foldl Tree.applyOp t) :=
+  applyOps_inv t h ops
+
+theorem invariant_through_commit (p : Params) (hp : p.Valid) (h2 : 2 ≤ p.minKeysPerNode)
+    (pagesize hdr leafHdr branchHdr bmSize : Nat) (steps : List RbStep) (t : Tree Bytes Ent) (h : TreeInv t) :
+    TreeInv (commitTree p pagesize hdr leafHdr branchHdr bmSize steps t) :=
+  commitTree_inv p pagesize hdr leafHdr branchHdr bmSize hp h2 steps t h
+
+/-- … and a tree with the invariant and no childless branch is well-formed for routing, so `get_refines`,
+`scan_refines` and `edits_refine` apply to it -/
+theorem invariant_gives_wf (t : Tree K α) (h : TreeInv t) (hne : nebT t = true) : WF none none t :=
+  wfs_wf none none t h.sep hne
+
+/-- without tightness the separator invariant alone is *not* kept by `put` (the counterexample that
+made tightness part of the invariant) -/
+theorem sep_alone_not_inductive :
+    ¬ (∀ (lo hi : Option Nat) (t : Tree Nat Unit), WFS lo hi t → ∀ (key : Nat) (e : Unit),
+        inLo lo key → inHi hi key → WFS lo hi (t.put key e)) :=
+  put_wfs_false
+
+/-- non-vacuity: a two-level tree with a nested-bucket entry satisfies the invariant's executable form -/
+example : wfsb (K := Nat) (E := Nat) none none
+      (.branch 5 (.cons 10 (.leaf 6 [(3, 0), (10, 1)]) (.cons 20 (.leaf 7 [(20, 5)]) .nil))) = true ∧
+    tightB (K := Nat) (E := Nat) none
+      (.branch 5 (.cons 10 (.leaf 6 [(3, 0), (10, 1)]) (.cons 20 (.leaf 7 [(20, 5)]) .nil))) = true := by
   decide
 
 end Jamm.Props.C01
